@@ -66,7 +66,6 @@ const preludeCore = `
 (declare-fun slt (Int Int) Bool)
 (declare-const sempty Int)
 (assert (= (slen sempty) 0))
-(assert (= sempty 0))
 (assert (forall ((s Int)) (! (and (>= (slen s) 0) (<= (slen s) 4611686018427387904)) :pattern ((slen s)))))
 (assert (= (itag 0) 0))
 `
